@@ -211,7 +211,7 @@ def finish(mod, prop, tier, seed, specs, outs, wall):
         return 1
     if errors or herrors:
         for spec, e in (errors + herrors)[:5]:
-            print('HARNESS-ERROR in case %r:\n%s' % (spec, e), file=sys.stderr)
+            print('HARNESS-ERROR in case %s:\n%s' % (repr(spec)[:300], e[-1500:]), file=sys.stderr)
         return 2
     if agg.core_undecided:
         print('INCONCLUSIVE: %d core obligations undecided' % agg.core_undecided, file=sys.stderr)
